@@ -94,3 +94,34 @@ Proof. vm_compute. reflexivity. Qed.
 Example ex_bow : can_bow [CF.ALPHA; N.lor CF.ALL CF.NOOOVBOW2; CF.KANJI; CF.KANJI; N.lor CF.ALL CF.NOOOVBOW; CF.ALPHA; CF.ALPHA]
                  = [true; false; false; true; false; false; false].
 Proof. vm_compute. reflexivity. Qed.
+
+(* ---- well-formed candidates, the lattice adapter, OOV morphemes (non-vacuity of the hypotheses) ---- *)
+From SudachiVerif Require Proofs.OovWf Proofs.OovLattice Model.BuildLattice.
+
+(* the regex oracle hypothesis is met by ex_regex on the 6-character text: its only match (offset 1, 3 characters) ends
+   within the window *)
+Example ex_oracle_ok : Proofs.OovWf.regex_oracle_ok ex_regex 6.
+Proof.
+  intros off at0 mlen H. destruct off as [|[|[|[|[|[|off]]]]]]; cbn in H; try discriminate.
+  - injection H as <- <-. cbn. lia.
+  - destruct off; discriminate.
+Qed.
+
+Definition ex_provs3 : list provider := [PMecab ex_mecab; PRegex ex_regex; PSimple ex_simple].
+Example ex_total_hyps :
+  fallback_of ex_provs3 = Some (PSimple ex_simple)
+  /\ forallb (fun p => match normal_pass (mk_ctx ex_text2) ex_provs3 p [] with ROk _ => true | _ => false end) (seq 0 6) = true.
+Proof. vm_compute. split; reflexivity. Qed.
+
+(* the lattice of the provider model over that text gets connected (unit connection costs) *)
+Example ex_build_connected :
+  exists L e, Model.BuildLattice.build (fun _ _ => 1%Z) (Proofs.OovLattice.oov_offered ex_text2 ex_provs3 (fun _ => []))
+                                       Proofs.OovLattice.no_fallback 6 = Some (L, e).
+Proof. eexists. eexists. vm_compute. reflexivity. Qed.
+
+(* an OOV node with part of speech 7 over characters 1..3 of a text whose normalised form differs from the original *)
+Example ex_oov_morpheme :
+  oov_morpheme [65; 66; 67; 68] [97; 98; 99; 100] (wid_oov 7) 1 3
+  = mkMV true (-1)%Z 7 [66; 67] [98; 99] [98; 99] [98; 99]
+  /\ wid_oov 7 = 4026531847 /\ dictionary_id (wid_new 2 5) = 2%Z.
+Proof. vm_compute. repeat split; reflexivity. Qed.
